@@ -10,7 +10,7 @@ from capi import Lib
 from vlib import Oracle, build_lib
 
 PID = "c07"
-THEOREMS = ['C07_frame_conformant', 'C07_header_roundtrip', 'C07_header_bytes', 'C07_independent_blocks', 'C07_linked_window', 'C07_frameSize_wrong', 'C07_compressFrame_conformant', 'C07_audit_sound']
+THEOREMS = ['C07_frame_conformant', 'C07_header_roundtrip', 'C07_header_bytes', 'C07_independent_blocks', 'C07_linked_window', 'C07_frameSize_wrong', 'C07_compressFrame_conformant', 'C07_audit_sound', "C07_frame_conformant_linked_discharged", "C07_frame_conformant_linked_fast", "C07_frame_conformant_linked_hc_mid", "C07_frame_conformant_linked_hc_opt", "C07_blk_contract_linked", "C07_body_is_C07_frame_conformant"]
 ORACLES = ["framec"]
 CORRESPONDENCE = [
     "FrameC model == LZ4F_compressBegin*/compressUpdate/uncompressedUpdate/flush/compressEnd (return value and every output byte of every call)",
